@@ -69,8 +69,12 @@ def parseOp (s : String) : Option Export.Op :=
   match s.splitOn ":" with
   | ["g", name, t, c, a, k] =>
     match parseIdx t, parseIdx c, parseArg a, parseIdx k with
-    | some t, some c, some a, some k => some (.gate ⟨name.toList, t, c, a, k⟩)
+    | some t, some c, some a, some k => some (.gate ⟨name.toList, t, c, a, k, none⟩)
     | _, _, _, _ => none
+  | ["g", name, t, c, a, k, v] =>      -- with `control_value` (`N` = None)
+    match parseIdx t, parseIdx c, parseArg a, parseIdx k, (if v == "N" then some none else v.toNat?.map some) with
+    | some t, some c, some a, some k, some v => some (.gate ⟨name.toList, t, c, a, k, v⟩)
+    | _, _, _, _, _ => none
   | ["m", t, st] =>
     match parseIdx t with
     | some (some ts) =>
